@@ -36,21 +36,21 @@ fn table() -> Vec<(&'static str, RunFn, ReplayFn)> {
     t.push(("C19", props::c19::run as RunFn, props::c19::replay as ReplayFn));
     t.push(("C14", props::c14::run as RunFn, props::c14::replay as ReplayFn));
     t.push(("C06", props::c06::run as RunFn, props::c06::replay as ReplayFn));
-    #[cfg(feature = "full")]
+    #[cfg(feature = "f-decstack")]
     t.push(("C04", props::c04::run as RunFn, props::c04::replay as ReplayFn));
-    #[cfg(feature = "full")]
+    #[cfg(feature = "f-decstack")]
     t.push(("C05", props::c05::run as RunFn, props::c05::replay as ReplayFn));
-    #[cfg(feature = "full")]
+    #[cfg(feature = "f-decstack")]
     t.push(("C01", props::c01::run as RunFn, props::c01::replay as ReplayFn));
     t.push(("C03", props::c03::run as RunFn, props::c03::replay as ReplayFn));
-    #[cfg(feature = "full")]
+    #[cfg(feature = "f-decstack")]
     t.push(("C07", props::c07::run as RunFn, props::c07::replay as ReplayFn));
     t.push(("C02", props::c02::run as RunFn, props::c02::replay as ReplayFn));
     t.push(("C13", props::c13::run as RunFn, props::c13::replay as ReplayFn));
     t.push(("C12", props::c12::run as RunFn, props::c12::replay as ReplayFn));
     t.push(("C11", props::c11::run as RunFn, props::c11::replay as ReplayFn));
     t.push(("C10", props::c10::run as RunFn, props::c10::replay as ReplayFn));
-    #[cfg(feature = "full")]
+    #[cfg(feature = "f-decstack")]
     t.push(("C09", props::c09::run as RunFn, props::c09::replay as ReplayFn));
     #[cfg(any(feature = "full", feature = "v-aws"))]
     t.push(("C16", props::c16::run as RunFn, props::c16::replay as ReplayFn));
